@@ -149,7 +149,8 @@ PROPS = {
         undecided=['exact zero for a table against itself', 'reproduction of original rows and '
                    'first-order recovery of a perturbation (numerical)']),
     'C14': dict(
-        rules=[sensor.sm_names, sensor.sm_count, sensor.sm_accum, sensor.sm_sign, purity.rng_src],
+        rules=[sensor.sm_names, sensor.sm_count, sensor.sm_accum, sensor.sm_sign, sensor.sm_apply,
+               purity.rng_src],
         decided=['state names produced by estimator and simulator and parsed by the estimator '
                  'agree', 'output/input axis roles at all six sites',
                  'construction counters paired with appends/stores on every path; slices use the '
@@ -186,14 +187,17 @@ PROPS = {
                    'second-order agreement with the feedforward filter']),
     'C16': dict(
         rules=[kernel.sib_grav, geo.geo_frame, geo.geo_perturb, geo.geo_curv, geo.parity,
-               geo.role_radii, lambda c: dtype.dtype_inherit(c, ('transform', 'earth'))],
+               geo.role_radii, geo.parity_ecef,
+               lambda c: dtype.dtype_inherit(c, ('transform', 'earth'))],
         decided=['NED axes of mat_en_from_ll are the partial derivatives of lla_to_ecef with '
                  'lengths given by principal_radii (symbolic proof for all lat/lon/alt)',
                  'perturb_lla, compute_lla_difference and lla_to_ned agree with that geometry to '
                  'first order', 'curvature matrix = rotation of the NED frame under displacement',
                  'rate_n, gravity_n, gravitation_ecef (gravity minus centrifugal) and the compiled '
-                 'gravity copy are one field', 'even/odd symmetry in latitude'],
-        undecided=['ECEF -> geodetic round trip (Olson iteration is numerical)',
+                 'gravity copy are one field', 'even/odd symmetry in latitude',
+                 'ECEF -> geodetic conversion is mirror-symmetric in z (latitude odd, longitude and '
+                 'altitude even)'],
+        undecided=['accuracy of the ECEF -> geodetic round trip (Olson iteration is numerical)',
                    'behaviour exactly at the poles (division by cos lat)',
                    'scalar/vector call-form agreement']),
     'C05': dict(
